@@ -40,11 +40,21 @@ structure SubPath where
   implicit : Bool := false
 deriving DecidableEq, Repr
 
-/-- A colour space as far as the operators care: number of components, or Pattern. -/
-structure Space where
-  n : Nat
-  pattern : Bool
-deriving DecidableEq, Repr
+/-- A colour space as far as the operators care: its family (`DeviceGray` … `ICCBased`, `DeviceN`,
+`Pattern`) and its number of components (`sp.pattern` = the family is Pattern). -/
+abbrev Space := CSpace
+
+/-- ISO 32000-1 Table 74, operator CS: the initial colour of a colour space.  DeviceGray, DeviceRGB,
+CalGray, CalRGB, Lab, ICCBased, Indexed: all components 0; DeviceCMYK: 0 0 0 1; Separation, DeviceN:
+all tints 1; Pattern: a pattern that paints nothing (no colour). -/
+def isoInit (sp : Space) : Option Colour :=
+  if sp.n = 0 then none
+  else match sp.name with
+    | "Pattern" => none
+    | "DeviceCMYK" => some (.comps [0, 0, 0, 1])
+    | "Separation" => some (.comps (List.replicate sp.n 1))
+    | "DeviceN" => some (.comps (List.replicate sp.n 1))
+    | _ => some (.comps (List.replicate sp.n 0))
 
 inductive SOp where
   | m (p : Point) | seg (s : Seg) | h | re (x y w h : Rat)
@@ -159,13 +169,15 @@ def stepS (cs : SpaceMap) (st : SState) : SOp → SState
   | .w r => { st with g := { st.g with linewidth := r } }
   | .d arr phase => { st with g := { st.g with dash := some (arr, phase) } }
   | .noop1 _ _ => st
-  | .gray stroking x => { st with g := setSp (setCol st.g stroking (.comps [x])) stroking ⟨1, false⟩ }
-  | .rgb stroking r g b => { st with g := setSp (setCol st.g stroking (.comps [r, g, b])) stroking ⟨3, false⟩ }
+  | .gray stroking x => { st with g := setSp (setCol st.g stroking (.comps [x])) stroking ⟨"DeviceGray", 1⟩ }
+  | .rgb stroking r g b => { st with g := setSp (setCol st.g stroking (.comps [r, g, b])) stroking ⟨"DeviceRGB", 3⟩ }
   | .cmyk stroking c m y k =>
-    { st with g := setSp (setCol st.g stroking (.comps [c, m, y, k])) stroking ⟨4, false⟩ }
+    { st with g := setSp (setCol st.g stroking (.comps [c, m, y, k])) stroking ⟨"DeviceCMYK", 4⟩ }
   | .cs stroking name =>
     match cs.lookup name with
-    | some sp => { st with g := setSp st.g stroking sp }
+    | some sp =>      -- ISO 32000-1 8.6.8: cs/CS select the space AND its initial colour
+      let g := setSp st.g stroking sp
+      { st with g := if stroking then { g with scolor := isoInit sp } else { g with ncolor := isoInit sp } }
     | none => st
   | .sc _ stroking xs pat =>
     match pat with
@@ -226,25 +238,13 @@ def wf (cs : SpaceMap) : List SOp → SState → Bool
   | [], _ => true
   | op :: rest, st => opOk cs st op && wf cs rest (stepS cs st op)
 
-/-- The space map of a page: the predefined colour spaces overlaid with the page's resources. -/
-def spaceOf (name : String) (n : Nat) : Space := ⟨n, name == "Pattern"⟩
-
-def insertSpace (m : SpaceMap) (name : String) (sp : Space) : SpaceMap :=
-  if (m.lookup name).isSome then m.map (fun e => if e.1 == name then (name, sp) else e) else m ++ [(name, sp)]
-
-def initSpaces (res : List (String × CsSpec)) : SpaceMap :=
-  res.foldl (fun m (e : String × CsSpec) =>
-    match e.2 with
-    | .icc n => insertSpace m e.1 ⟨n, false⟩
-    | .devn n => insertSpace m e.1 ⟨n, false⟩
-    | .named base =>
-      match PREDEFINED_COLORSPACE.lookup base with
-      | some n => insertSpace m e.1 (spaceOf base n)
-      | none => m) (PREDEFINED_COLORSPACE.map (fun e => (e.1, spaceOf e.1 e.2)))
+/-- The space map of a page: the predefined colour spaces overlaid with the page's resources
+(resource name -> family and number of components; this is `init_resources`, shared with the model). -/
+def initSpaces (res : List (String × CsSpec)) : SpaceMap := initCsmap res
 
 def initS (ctm : Matrix) : SState :=
   { g := { ctm := ctm, linewidth := 0, dash := none, scolor := none, ncolor := none,
-           sspace := ⟨1, false⟩, nspace := ⟨1, false⟩ },
+           sspace := ⟨"DeviceGray", 1⟩, nspace := ⟨"DeviceGray", 1⟩ },
     stack := [], path := [], out := [] }
 
 /-- The shapes the property demands for one page. -/
